@@ -154,6 +154,7 @@ def check_all(trace, props=("C07", "C08", "C09", "C11", "C12", "C13", "C17")):
     prev_leg = None
     charges0 = {k: u.get("charge") for k, u in st.units.items()}
     start_tagger_done = False
+    mode_activation = {}
     for n, leg in enumerate(trace["legs"]):
         stats["legs"] += 1
         # ---------------- C09: pending == fresh (evaluated at the start of the leg, after creation)
@@ -188,6 +189,22 @@ def check_all(trace, props=("C07", "C08", "C09", "C11", "C12", "C13", "C17")):
                     if len(fresh) != len(pend):
                         fails["C09"].append({"leg": n, "msg": "tagger %s: %d pending events, fresh start creates %d"
                                              % (meta["taggers"][ti]["tag"], len(pend), len(fresh))})
+        # ---------------- C09: the set of activated taggers is the one of a fresh start in the same mode of motion
+        # (a single point mass moves / a whole composite object moves): a tagger that a mode switch leaves
+        # deactivated has no pending events AND generates none when asked, so only this comparison sees that its
+        # factors are missing
+        if "C09" in props and leg.get("activated") is not None and n >= 1:
+            nmov = len([k for k in st.leaves if st.units[k]["vel"] is not None])
+            mode = "composite object" if nmov > 1 else "point mass"
+            act = tuple(sorted(int(t) for t, b in leg["activated"].items() if b
+                               and "StartOfRunEventHandler" not in meta["taggers"][int(t)]["handler_bases"]))
+            if mode not in mode_activation:
+                mode_activation[mode] = (n, act)
+            elif mode_activation[mode][1] != act:
+                n0, act0 = mode_activation[mode]
+                diff = sorted(set(act0) ^ set(act))
+                fails["C09"].append({"leg": n, "msg": "activated taggers differ from those at leg %d in the same mode (%s "
+                                     "moves): %r" % (n0, mode, [meta["taggers"][t]["tag"] for t in diff])})
         # ---------------- C11: occupancy mirrors positions (start of leg, after update)
         if "C11" in props and leg.get("occ") and started:
             for si, occ in enumerate(leg["occ"]):
